@@ -17,7 +17,9 @@ use crate::engine::{explore, guarded, hex, show, validate_traces, Limits, Report
 use crate::refmodel::head;
 use crate::refmodel::reqvalid::{self, ReqFacts};
 
-pub const RULE: &str = "requests: methods {GET,HEAD,POST,PUT,DELETE,OPTIONS} x versions {1.0,1.1} x original header lists of length 0..=1 (thorough 0..=2) x caller-added lists of length 0..=2 over the pool {host, content-length: 3, transfer-encoding: chunked, transfer-encoding: Chunked (mixed case), x-a: 1, x-a: 2 (repeated name), x-bin: <0x80 0xff>, cookie, connection: close} (at most one of Content-Length / Transfer-Encoding) x send-body-despite-method {no,yes}, URIs with and without path/query/port; long requests with n added (0,1,2,59,60; thorough every n in 0..=60) and m in {0,1,5} original headers; flows at redirect depth 1..3 (states of a redirect-chain graph, with 0/1 added headers); only requests the validity model accepts; front ends Flow::<SendRequest>, Call::<WithoutBody>, Call::<WithBody>. Per request the COMPLETE graph of the writer: from every reachable state write(out) for EVERY out in 0..=|head|+1, and again in the completed state. distinct = distinct (request, front end) graphs";
+pub const RULE: &str = "requests: methods {GET,HEAD,POST,PUT,DELETE,OPTIONS} x versions {1.0,1.1} x original header lists of length 0..=1 (thorough 0..=2) x caller-added lists of length 0..=2 over the pool {host, content-length: 3, transfer-encoding: chunked, transfer-encoding: Chunked (mixed case), x-a: 1, x-a: 2 (repeated name), x-bin: <0x80 0xff>, cookie, connection: close} (at most one of Content-Length / Transfer-Encoding) x send-body-despite-method {no,yes}, URIs with and without path/query/port; 12 URI shapes (empty path with query, bare '?', trailing '?', '//', userinfo, upper-case host + default port, fragment, IP literal, percent-encoded delimiters, path parameters) x {GET,POST,OPTIONS} x versions x with/without caller-added Host; long requests with n added (0,1,2,59,60; thorough every n in 0..=60) and m in {0,1,5} original headers; flows at redirect depth 1..3 (states of a redirect-chain graph, with 0/1 added headers); only requests the validity model accepts; front ends Flow::<SendRequest>, Call::<WithoutBody>, Call::<WithBody>. Per request the COMPLETE graph of the writer: from every reachable state write(out) for EVERY out in 0..=|head|+1, and again in the completed state. distinct = distinct (request, front end) graphs";
+
+const URI_SHAPES: [&str; 12] = ["http://a.test?x=1", "http://a.test?", "http://a.test/p?", "http://a.test/?", "http://a.test//d", "http://u:pw@a.test/p", "http://A.TEST:80/P", "http://a.test/p#frag", "http://[::1]:8080/p", "http://a.test/%3F?%20&a=b?c", "https://a.test", "http://a.test/p;v=1/q"];
 
 const POOL: [(&str, &[u8]); 9] = [("host", b"h.test"), ("content-length", b"3"), ("transfer-encoding", b"chunked"), ("transfer-encoding", b"Chunked"), ("x-a", b"1"), ("x-a", b"2"), ("x-bin", b"\x80\xff"), ("cookie", b"c=1"), ("connection", b"close")];
 
@@ -98,7 +100,8 @@ pub fn check_head(bytes: &[u8], s: &Spec) -> Result<(), (String, String)> {
         return Err((k("host-count"), format!("{} Host headers on the wire", hosts.len())));
     }
     if let Some(dh) = &s.derived_host {
-        if hosts[0] != dh.as_bytes() {
+        // host names are case-insensitive; the reference resolver lower-cases, the URI may not
+        if !hosts[0].eq_ignore_ascii_case(dh.as_bytes()) {
             return Err((k("derived-host-value"), format!("derived Host is {:?}, expected the URI host {:?}", show(hosts[0]), dh)));
         }
         let i = fields.iter().position(|f| f.0 == "host").unwrap();
@@ -400,6 +403,27 @@ fn gen_requests(tier: Tier) -> Vec<(ReqCfg, &'static str)> {
                                 }
                             }
                         }
+                    }
+                }
+            }
+        }
+    }
+    // URI shapes: empty path with/without query, bare query delimiter, double slash, userinfo,
+    // upper-case host with default port, fragment, IP literal, percent-encoded delimiters
+    for uri in URI_SHAPES {
+        for m in ["GET", "POST", "OPTIONS"] {
+            for ver in ["1.0", "1.1"] {
+                if !valid(&ReqCfg::new(m, ver, uri), "flow") {
+                    continue;
+                }
+                for added_host in [false, true] {
+                    let mut c = ReqCfg::new(m, ver, uri);
+                    if added_host {
+                        c.added.push(("host".into(), b"other.test:81".to_vec()));
+                    }
+                    out.push((c.clone(), "flow"));
+                    if !added_host {
+                        out.push((c, if m == "POST" { "call-with-body" } else { "call-without-body" }));
                     }
                 }
             }
